@@ -1,4 +1,6 @@
 import FCA.Generated.Defn
+import FCA.Generated.Unique
+import Mathlib.Data.List.Nodup
 import FCA.Proofs.Defn
 /-
 C13 over the regenerated source: eleven of the fifteen `Definition` mutators (`__setitem__`, `move_*`, `add_*`, `set_*`,
@@ -121,6 +123,193 @@ theorem C13_generated_intersection_update (d other : Defn) (ig : Bool) :
   simp only [Generated.defn_intersection_update, Defn.step]
   split <;> rfl
 
+/-! ### `tools.Unique` with its two fields explicit (`_seen`, `_items`), translated from the current `tools.py`
+
+`Generated.unique_*` return, when a statement raises, the state reached at that moment. Atomicity of a rejected `replace` / `move`
+(the clause "a rejected call leaves no residue" of C13, broken by seeded changes C13-m1 and C13-r8m1, which register the new name
+in `_seen` before the failing look-up) is therefore a theorem about the code, and the model's list primitives `uAdd`, `uReplace`,
+`uMove` are *derived* from the two-field code under the class invariant `UState.Inv`. -/
+
+
+theorem C13_inv_contains {u : UState} (h : u.Inv) (x : Name) : u.seen.contains x = u.items.contains x := by
+  rw [Bool.eq_iff_iff]; simp only [List.contains_iff_mem]; exact h.2 x
+
+/-- a rejected `replace` / `move` leaves both fields exactly as they were (no hypothesis) -/
+theorem C13_generated_unique_replace_atomic (seen items : List Name) (a b : Name) (e : Err) (u' : UState)
+    (h : Generated.unique_replace seen items a b = .error (e, u')) : u' = ⟨seen, items⟩ := by
+  unfold Generated.unique_replace at h
+  split at h
+  · cases h; rfl
+  · split at h
+    · cases h; rfl
+    · split at h
+      · cases h; rfl
+      · cases h
+
+theorem C13_generated_unique_move_atomic (seen items : List Name) (a : Name) (i : Int) (e : Err) (u' : UState)
+    (h : Generated.unique_move seen items a i = .error (e, u')) : u' = ⟨seen, items⟩ := by
+  unfold Generated.unique_move at h
+  split at h
+  · cases h; rfl
+  · split at h <;> cases h
+
+theorem C13_generated_unique_add_total (seen items : List Name) (a : Name) :
+    ∃ u', Generated.unique_add seen items a = .ok u' := by
+  unfold Generated.unique_add; split <;> exact ⟨_, rfl⟩
+
+/-- `Unique.add` of the current source is the model's `uAdd` on the items and keeps the invariant -/
+theorem C13_generated_unique_add (u : UState) (h : u.Inv) (a : Name) :
+    ∃ u', Generated.unique_add u.seen u.items a = .ok u' ∧ u'.items = uAdd u.items a ∧ u'.Inv := by
+  unfold Generated.unique_add uAdd
+  rw [C13_inv_contains h]
+  by_cases hc : u.items.contains a = true
+  · simp only [hc, Bool.not_true, Bool.false_eq_true, if_false, if_true]
+    exact ⟨_, rfl, rfl, h⟩
+  · have hc' : u.items.contains a = false := by simpa using hc
+    simp only [hc', Bool.not_false, if_true, Bool.false_eq_true, if_false]
+    refine ⟨_, rfl, rfl, ?_, ?_⟩
+    · have hn : a ∉ u.items := by simpa [List.contains_iff_mem] using hc'
+      simpa [List.nodup_append] using And.intro h.1 (fun x hx => by rintro rfl; exact hn hx)
+    · intro x
+      have hs : u.seen.contains a = false := by rw [C13_inv_contains h]; exact hc'
+      simp only [sAdd, hs, Bool.false_eq_true, if_false, List.mem_append, List.mem_singleton, h.2 x]
+
+theorem C13_getD_of_findIdx {l : List Name} {x : Name} {idx : Nat} (h : l.findIdx? (· == x) = some idx) :
+    l.getD idx "" = x := by
+  have := List.findIdx?_eq_some_iff_getElem.mp h
+  obtain ⟨hlt, hx, _⟩ := this
+  simp only [List.getD_eq_getElem?_getD, List.getElem?_eq_getElem hlt, Option.getD_some]
+  simpa using hx
+
+/-- `Unique.move` of the current source is the model's `uMove` (no hypothesis needed) -/
+theorem C13_generated_unique_move (seen items : List Name) (a : Name) (i : Int) :
+    (Generated.unique_move seen items a i).toOption.map (·.items) = (uMove items a i).toOption ∧
+    ((Generated.unique_move seen items a i).toOption.isNone ↔ uMove items a i = .error .valueError) := by
+  unfold Generated.unique_move uMove lIndex
+  cases hf : items.findIdx? (· == a) with
+  | none => simp [Except.toOption]
+  | some idx =>
+    simp only
+    by_cases hi : (idx : Int) = i
+    · simp [hi, Except.toOption]
+    · have : ((idx : Int) != i) = true := by simpa using hi
+      simp only [this, if_true, hi, if_false, lPop, C13_getD_of_findIdx hf]
+      simp [Except.toOption]
+
+
+
+theorem C13_mem_sAdd (s : List Name) (b x : Name) : x ∈ sAdd s b ↔ x ∈ s ∨ x = b := by
+  unfold sAdd
+  split
+  · rename_i hc
+    have hb : b ∈ s := by simpa [List.contains_iff_mem] using hc
+    constructor
+    · exact Or.inl
+    · rintro (h | rfl); exact h; exact hb
+  · simp
+
+theorem C13_set_eq_map {a b : Name} : ∀ (l : List Name) (idx : Nat), l.Nodup → l.findIdx? (· == a) = some idx →
+    l.set idx b = l.map (fun x => if x == a then b else x) := by
+  intro l
+  induction l with
+  | nil => intro idx _ h; simp at h
+  | cons y ys ih =>
+    intro idx hnd h
+    rw [List.findIdx?_cons] at h
+    by_cases hy : (y == a) = true
+    · simp only [hy, if_true, Option.some.injEq] at h
+      subst h
+      have hya : y = a := by simpa using hy
+      have hnot : a ∉ ys := by rw [← hya]; exact (List.nodup_cons.mp hnd).1
+      have : ys.map (fun x => if x == a then b else x) = ys := by
+        conv_rhs => rw [← List.map_id ys]
+        apply List.map_congr_left
+        intro x hx
+        have : x ≠ a := by rintro rfl; exact hnot hx
+        simp [this]
+      simp only [List.set_cons_zero, List.map_cons, hy, if_true, this]
+    · have hy' : (y == a) = false := by simpa using hy
+      simp only [hy', Bool.false_eq_true, if_false, Option.map_eq_some_iff] at h
+      obtain ⟨k, hk, rfl⟩ := h
+      simp only [List.set_cons_succ, List.map_cons, hy', Bool.false_eq_true, if_false, ih k (List.nodup_cons.mp hnd).2 hk]
+
+/-- `Unique.replace` of the current source: accepts exactly when the model's `uReplace` does, with the same items, and keeps the
+class invariant; every rejection is a `ValueError` -/
+theorem C13_generated_unique_replace (u : UState) (h : u.Inv) (a b : Name) :
+    match Generated.unique_replace u.seen u.items a b with
+    | .ok u' => uReplace u.items a b = .ok u'.items ∧ u'.Inv
+    | .error (e, _) => e = .valueError ∧ uReplace u.items a b = .error .valueError := by
+  unfold Generated.unique_replace uReplace
+  rw [C13_inv_contains h b]
+  by_cases hb : u.items.contains b = true
+  · simp only [hb, if_true, and_self]
+  · have hb' : u.items.contains b = false := by simpa using hb
+    have hbn : b ∉ u.items := by simpa [List.contains_iff_mem] using hb'
+    simp only [hb', Bool.false_eq_true, if_false, lIndex]
+    cases hf : u.items.findIdx? (· == a) with
+    | none =>
+      have : u.items.contains a = false := by
+        rw [List.findIdx?_eq_none_iff] at hf
+        rw [Bool.eq_false_iff]; intro hc
+        have := hf a (by simpa [List.contains_iff_mem] using hc)
+        simp at this
+      simp only [this, Bool.false_eq_true, if_false, and_self]
+    | some idx =>
+      have hmem : a ∈ u.items := by
+        obtain ⟨hlt, hx, _⟩ := List.findIdx?_eq_some_iff_getElem.mp hf
+        have : u.items[idx] = a := by simpa using hx
+        rw [← this]; exact List.getElem_mem hlt
+      have hca : u.items.contains a = true := by simpa [List.contains_iff_mem] using hmem
+      have hsa : u.seen.contains a = true := by rw [C13_inv_contains h]; exact hca
+      simp only [sRemove, hsa, if_true, hca, lSet, C13_set_eq_map u.items idx h.1 hf, true_and]
+      constructor
+      · -- no repeats after the replacement
+        apply List.Nodup.map_on _ h.1
+        intro x hx y hy hxy
+        by_cases hxa : x = a <;> by_cases hya : y = a
+        · rw [hxa, hya]
+        · simp only [hxa, beq_self_eq_true, if_true, hya, beq_iff_eq, if_false] at hxy
+          exact absurd (hxy ▸ hy) hbn
+        · simp only [hya, beq_self_eq_true, if_true, hxa, beq_iff_eq, if_false] at hxy
+          exact absurd (hxy ▸ hx) hbn
+        · simpa [hxa, hya] using hxy
+      · intro x
+        rw [C13_mem_sAdd]
+        simp only [List.mem_filter, List.mem_map, h.2 x, bne_iff_ne, ne_eq]
+        constructor
+        · rintro (⟨hx, hxa⟩ | rfl)
+          · exact ⟨x, hx, by simp [hxa]⟩
+          · exact ⟨a, hmem, by simp⟩
+        · rintro ⟨y, hy, rfl⟩
+          by_cases hya : y = a
+          · right; simp [hya]
+          · left; simp [hya, hy]
+
+
+/-- `Unique.discard` of the current source never raises on a well-formed instance, removes the item and keeps the invariant -/
+theorem C13_generated_unique_discard (u : UState) (h : u.Inv) (a : Name) :
+    ∃ u', Generated.unique_discard u.seen u.items a = .ok u' ∧ u'.items = u.items.filter (· != a) ∧ u'.Inv := by
+  unfold Generated.unique_discard
+  rw [C13_inv_contains h a]
+  by_cases ha : u.items.contains a = true
+  · have hs : u.seen.contains a = true := by rw [C13_inv_contains h]; exact ha
+    simp only [ha, if_true, sRemove, hs, lRemove]
+    refine ⟨_, rfl, ?_, ?_, ?_⟩
+    · exact h.1.erase_eq_filter a
+    · exact h.1.erase a
+    · intro x
+      simp only [List.mem_filter, h.2 x, bne_iff_ne, ne_eq, h.1.mem_erase_iff]
+      exact ⟨fun ⟨a, b⟩ => ⟨b, a⟩, fun ⟨a, b⟩ => ⟨b, a⟩⟩
+  · have ha' : u.items.contains a = false := by simpa using ha
+    have hn : a ∉ u.items := by simpa [List.contains_iff_mem] using ha'
+    simp only [ha', Bool.false_eq_true, if_false]
+    refine ⟨_, rfl, ?_, h⟩
+    symm
+    rw [List.filter_eq_self]
+    intro x hx
+    have : x ≠ a := by rintro rfl; exact hn hx
+    simpa using this
+
 end FCA
 #print axioms FCA.C13_generated_setitem
 #print axioms FCA.C13_generated_move_object
@@ -133,3 +322,10 @@ end FCA
 #print axioms FCA.C13_generated_intersection_update
 #print axioms FCA.C13_generated_remove_object
 #print axioms FCA.C13_generated_remove_property
+#print axioms FCA.C13_generated_unique_replace_atomic
+#print axioms FCA.C13_generated_unique_move_atomic
+#print axioms FCA.C13_generated_unique_add_total
+#print axioms FCA.C13_generated_unique_add
+#print axioms FCA.C13_generated_unique_move
+#print axioms FCA.C13_generated_unique_replace
+#print axioms FCA.C13_generated_unique_discard
